@@ -1125,8 +1125,22 @@ class Evaluator:
         finally:
             self._loop_depth = before
 
+    @staticmethod
+    def _unfilter(s: ast.For) -> ast.For:
+        """`for x in filter(p, xs): B` is `for x in xs: if p(x): B`; `for x in (y for y in xs if c): B` likewise"""
+        it = s.iter
+        if not isinstance(s.target, ast.Name) or s.orelse:
+            return s
+        if isinstance(it, ast.Call) and isinstance(it.func, ast.Name) and it.func.id == 'filter' and len(it.args) == 2 and not it.keywords \
+                and not (isinstance(it.args[0], ast.Constant) and it.args[0].value is None):
+            test = ast.Call(func=it.args[0], args=[ast.Name(id=s.target.id, ctx=ast.Load())], keywords=[])
+            new = ast.For(target=s.target, iter=it.args[1], body=[ast.If(test=test, body=s.body, orelse=[])], orelse=[], type_comment=None)
+            return ast.fix_missing_locations(ast.copy_location(new, s))
+        return s
+
     def _loop(self, s, st: _State, mod, fi, depth, outs) -> List[_State]:
         if isinstance(s, ast.For):
+            s = self._unfilter(s)
             it = self.expr(s.iter, st, mod, fi, depth)
             tsrc = ast.unparse(s.target)
             lit = it
@@ -1251,6 +1265,41 @@ class Evaluator:
         return res
 
     # ----------------------------------------------------------- expressions
+    def _flag_numbers(self, ci: ClassInfo) -> Optional[Dict[str, int]]:
+        """numeric values of the members of a Flag class whose bits are written out (1, 2, 1 << 3, ...), with auto()
+        continuing after the highest bit used so far, as enum.Flag does; None when some value does not fold"""
+        memo = getattr(self, '_flag_num_memo', None)
+        if memo is None:
+            memo = self._flag_num_memo = {}
+        if ci.name in memo:
+            return memo[ci.name]
+        memo[ci.name] = None
+        nums: Dict[str, int] = {}
+
+        def num(v: Term) -> Optional[int]:
+            if isinstance(v, Const) and type(v.value) is int and v.value >= 0:
+                return v.value
+            if isinstance(v, EnumMember) and v.cls == ci.name:
+                return nums.get(v.name)
+            if isinstance(v, Op) and v.op in ('|', '&', '^') and len(v.args) == 2:
+                a, b = num(v.args[0]), num(v.args[1])
+                if a is None or b is None:
+                    return None
+                return a | b if v.op == '|' else a & b if v.op == '&' else a ^ b
+            return None
+        for name in ci.enum_members:
+            v = self.enum_value(EnumMember(ci.name, name), 0)
+            if isinstance(v, Call) and isinstance(v.func, Ext) and v.func.name.endswith('auto'):
+                hi = max(nums.values(), default=0)
+                n = 1 << hi.bit_length() if hi else 1
+            else:
+                n = num(v)
+            if n is None:
+                return None
+            nums[name] = n
+        memo[ci.name] = nums
+        return nums
+
     def flag_bits(self, t: Term, _depth: int = 0) -> Optional[frozenset]:
         """fold a term over members of an enum.Flag class into a set of base-member names"""
         if _depth > 12:
@@ -1262,6 +1311,24 @@ class Evaluator:
             v = self.enum_value(t, 0)
             if isinstance(v, Call) and isinstance(v.func, Ext) and v.func.name.endswith('auto'):
                 return frozenset({(t.cls, t.name)})
+            if isinstance(v, Const) and type(v.value) is int and v.value > 0:
+                # bits written out: each bit belongs to the first member that is exactly that bit
+                nums = self._flag_numbers(ci)
+                if nums is None:
+                    return None
+                owner: Dict[int, str] = {}
+                for name, n in nums.items():
+                    if n and n & (n - 1) == 0:
+                        owner.setdefault(n, name)
+                out = set()
+                bit = 1
+                while bit <= v.value:
+                    if v.value & bit:
+                        if bit not in owner:
+                            return None
+                        out.add((t.cls, owner[bit]))
+                    bit <<= 1
+                return frozenset(out)
             return self.flag_bits(v, _depth + 1)
         if isinstance(t, Const) and t.value == 0 and isinstance(t.value, int) and not isinstance(t.value, bool):
             return frozenset()  # the empty flag
@@ -1284,6 +1351,8 @@ class Evaluator:
         if isinstance(t, (ClassRef, FuncRef, New, Lam, EnumMember)):
             return True
         if isinstance(t, TupleT):
+            return bool(t.items)
+        if isinstance(t, DictT) and not any(isinstance(k, Opaque) for k, _ in t.items):
             return bool(t.items)
         if isinstance(t, Template):
             return None
@@ -1529,6 +1598,16 @@ class Evaluator:
             callee = self.callee(a.func)
             if callee is not None and isinstance(callee.node.returns, (ast.Name, ast.Constant)) and self.ann_class(callee.node.returns, callee.module) is not None:
                 return Const(op == 'is not')
+        if op in ('in', 'not in') and isinstance(a, EnumMember) and not isinstance(b, (TupleT, GlobalVal, DictT)):
+            # FLAG.X in flags, X a single bit: the same test as bool(flags & FLAG.X)
+            fb = self.flag_bits(a)
+            bt = self.type_of(b)
+            if fb is not None and len(fb) == 1 and (bt is None or bt.name == a.cls) and not (isinstance(b, Call) and isinstance(b.func, Ext)):
+                fb_b = self.flag_bits(b)
+                if fb_b is not None:
+                    return Const((next(iter(fb)) in fb_b) == (op == 'in'))
+                t = Call(Ext('bool'), (Op('&', (b, a)),))
+                return t if op == 'in' else Op('not', (t,))
         if op in ('in', 'not in'):
             c = b.value if isinstance(b, GlobalVal) else b
             if isinstance(c, Call) and isinstance(c.func, Ext) and c.func.name in ('frozenset', 'set', 'tuple', 'list') and len(c.args) == 1 and isinstance(c.args[0], TupleT):
@@ -1583,6 +1662,12 @@ class Evaluator:
             a = self.refold(t.args[0])
             tv = self.truth(a) if isinstance(a, Const) else None
             return Const(not tv) if tv is not None else Op('not', (a,))
+        if isinstance(t, Attr):
+            # an attribute of an object whose class is now known: fields, constant properties
+            b = self.refold(t.base)
+            if self.type_of(b) is not None:
+                return self.attr(b, t.name, _State(), 0)
+            return Attr(b, t.name) if b is not t.base else t
         return t
 
     def boolop(self, op: str, vals: List[Term]) -> Term:
@@ -1972,9 +2057,13 @@ class Evaluator:
             if n == 'methodcaller' and isinstance(func.args[0], Const) and isinstance(func.args[0].value, str):
                 self.resolved_calls += 1
                 return self.apply(self.attr(args[0], func.args[0].value, st, depth), tuple(func.args[1:]), tuple(func.kwargs), st, depth)
-            if n == 'attrgetter' and len(func.args) == 1 and isinstance(func.args[0], Const) and isinstance(func.args[0].value, str) and '.' not in func.args[0].value:
+            if n == 'attrgetter' and len(func.args) == 1 and isinstance(func.args[0], Const) and isinstance(func.args[0].value, str) \
+                    and all(part.isidentifier() for part in func.args[0].value.split('.')):
                 self.resolved_calls += 1
-                return self.attr(args[0], func.args[0].value, st, depth)
+                res = args[0]
+                for part in func.args[0].value.split('.'):    # attrgetter('a.b')(x) is x.a.b
+                    res = self.attr(res, part, st, depth)
+                return res
             if n == 'itemgetter' and len(func.args) == 1 and isinstance(func.args[0], Const) and isinstance(args[0], TupleT) and isinstance(func.args[0].value, int) \
                     and -len(args[0].items) <= func.args[0].value < len(args[0].items):
                 self.resolved_calls += 1
@@ -1992,6 +2081,8 @@ class Evaluator:
 
     def ext_call(self, func: Ext, args, kwargs) -> Term:
         n = func.name
+        if n.split('.')[-1] == 'check_type' and n.startswith('typeguard') and len(args) == 2 and not kwargs:
+            return args[0]    # typeguard.check_type(value, type) returns the value (or raises, like any external call)
         if n == 'float' and len(args) == 1 and isinstance(args[0], Const) and isinstance(args[0].value, (str, int, float)):
             try:
                 return Const(float(args[0].value))
@@ -2020,6 +2111,15 @@ class Evaluator:
             res = args[2] if len(args) == 3 else items.pop(0)
             for a in items:
                 res = self.binop(opn, res, a)
+            return res
+        if n in ('functools.reduce', 'reduce') and len(args) in (2, 3) and not kwargs and isinstance(args[0], (Lam, FuncRef, BoundMethod)) and isinstance(args[1], TupleT) \
+                and args[1].kind in ('tuple', 'list') and len(args[1].items) <= 8 and not any(isinstance(x, Op) and x.op == '*' for x in args[1].items) \
+                and (len(args) == 3 or args[1].items) and self._cur_state is not None:
+            # a fold over a short literal sequence: the function applied step by step
+            items = list(args[1].items)
+            res = args[2] if len(args) == 3 else items.pop(0)
+            for a in items:
+                res = self.apply(args[0], (res, a), (), self._cur_state, self._cur_depth)
             return res
         if n == 'getattr' and len(args) == 2 and isinstance(args[1], Const) and isinstance(args[1].value, str) and self._cur_state is not None:
             return self.attr(args[0], args[1].value, self._cur_state, self._cur_depth)
@@ -2085,6 +2185,22 @@ class Evaluator:
             if isinstance(a, Template):
                 return a
             return Template((Fmt(a, 's', ''),))
+        if n == 'isinstance' and len(args) == 2 and all(isinstance(t, ClassRef) and t.name in self.m.classes for t in (args[1].items if isinstance(args[1], TupleT) else (args[1],))):
+            # values whose kind is evident: an enum member is an instance of its enum class only; functions, lambdas
+            # and the callables built by operator.attrgetter & co. are instances of no class of the package
+            targets = args[1].items if isinstance(args[1], TupleT) else (args[1],)
+            a0 = args[0]
+            if isinstance(a0, EnumMember):
+                ec = self.m.classes.get(a0.cls)
+                if ec is not None:
+                    names = {x.name for x in ec.mro()}
+                    return Const(any(t.name in names for t in targets))
+            if isinstance(a0, (Lam, FuncRef)) or (isinstance(a0, Call) and isinstance(a0.func, Ext) and a0.func.name.split('.')[-1] in ('attrgetter', 'itemgetter', 'methodcaller', 'partial')):
+                return Const(False)
+            if isinstance(a0, Const) and isinstance(a0.value, (str, int, float, bool, type(None))):
+                tcs = [self.m.classes.get(t.name) for t in targets]
+                if all(tc is not None and not tc.external_bases for tc in tcs):
+                    return Const(False)
         if n == 'isinstance' and len(args) == 2 and isinstance(args[0], New):
             c = self.m.classes.get(args[0].cls)
             targets = args[1].items if isinstance(args[1], TupleT) else (args[1],)
@@ -2201,6 +2317,67 @@ def reduce_guards(gs: Tuple[Guard, ...]) -> Tuple[Guard, ...]:
     for t, pol in gs:
         add(t, pol)
     return tuple(out)
+
+
+def implied_literals(gs: Tuple[Guard, ...], max_atoms: int = 10) -> Tuple[Guard, ...]:
+    """The atomic tests whose value is the same in every truth assignment that satisfies all the guards (a small
+    truth table over the atoms of the and/or/not structure; `a is not b` is the negation of the atom `a is b`, and
+    likewise != / not in).  Guards that are atoms already are kept; an inconsistent list gives ()."""
+    NEG = {'is not': 'is', '!=': '==', 'not in': 'in'}
+
+    def atomise(t: Term):
+        """-> nested ('atom', term) / ('not', x) / ('and', xs) / ('or', xs)"""
+        if isinstance(t, Op) and t.op == 'not' and len(t.args) == 1:
+            return ('not', atomise(t.args[0]))
+        if isinstance(t, Op) and t.op in ('and', 'or') and t.args:
+            return (t.op, tuple(atomise(a) for a in t.args))
+        if isinstance(t, Op) and t.op in NEG and len(t.args) == 2:
+            return ('not', ('atom', Op(NEG[t.op], t.args)))
+        if isinstance(t, Const):
+            return ('const', bool(t.value))
+        return ('atom', t)
+    forms = [(atomise(t), pol) for t, pol in gs]
+    atoms: List[Term] = []
+
+    def collect(f):
+        if f[0] == 'atom':
+            if f[1] not in atoms:
+                atoms.append(f[1])
+        elif f[0] == 'not':
+            collect(f[1])
+        elif f[0] in ('and', 'or'):
+            for x in f[1]:
+                collect(x)
+    for f, _ in forms:
+        collect(f)
+    if len(atoms) > max_atoms:
+        return norm_guards(gs)
+
+    def ev(f, val):
+        if f[0] == 'atom':
+            return val[f[1]]
+        if f[0] == 'const':
+            return f[1]
+        if f[0] == 'not':
+            return not ev(f[1], val)
+        if f[0] == 'and':
+            return all(ev(x, val) for x in f[1])
+        return any(ev(x, val) for x in f[1])
+    fixed: Dict[Term, Optional[bool]] = {}
+    first = True
+    for bits in range(1 << len(atoms)):
+        val = {a: bool(bits >> i & 1) for i, a in enumerate(atoms)}
+        if all(ev(f, val) == pol for f, pol in forms):
+            if first:
+                fixed = dict(val)
+                first = False
+            else:
+                for a in atoms:
+                    if fixed.get(a) is not None and fixed[a] != val[a]:
+                        fixed[a] = None
+    if first:
+        return ()
+    return tuple((a, v) for a, v in fixed.items() if v is not None)
 
 
 def flat_guards(gs: Tuple[Guard, ...]) -> Tuple[Guard, ...]:
